@@ -5,6 +5,7 @@ from .. import astlib as A
 from .. import fdeval as FD
 from ..facts import AnalysisBroken
 from ..rules import recog as R
+from ..rules import outparam as OP
 
 LEVEL = "other"
 EXPLANATION = ("The syntax checker rtosc_skip_next_printed_arg and the scanner rtosc_scan_arg_val are two hand-written recognisers of "
@@ -150,6 +151,23 @@ def run(ctx):
     ctx.ob("R11.12", "left neighbour of a range", not missing, site=A.where(ell[0]), detail={"multi_slot_kinds": sorted(kinds), "distinguished_by_the_scanner": sorted(handled & kinds)},
            key="R11.12:left neighbour",
            what="the scanner picks the left neighbour of a range by slot position without telling apart arguments of kind %s, which occupy several slots: the slot before the range is then the last element of that argument (`[1 1] 3 ... 7` reads as 3 5 7)" % missing)
+    # ---- R11.13: out-parameters of the checker, on the IR of every function of the unit
+    ctx.rule("R11.13", "OUT-PARAMETER: a local handed to the checker (rtosc_skip_next_printed_arg) as an output that the checker can leave unwritten when it rejects the text is defined before the call, or the call's result is used, or the local is not read afterwards")
+    mir = ctx.ir("pretty-format.c")
+    callee_ir = mir.functions.get("rtosc_skip_next_printed_arg")
+    ctx.require(callee_ir is not None, "R11.13: rtosc_skip_next_printed_arg not in the IR")
+    outs = [k for k in range(len(callee_ir.params)) if OP.may_return_without_writing(callee_ir, k)]
+    n13 = 0
+    for fn_ir in mir.functions.values():
+        seen13, bad13 = OP.check(fn_ir, "rtosc_skip_next_printed_arg", outs)
+        badkeys = {(b["call"], b["local"]) for b in bad13}
+        for inst in seen13:
+            n13 += 1
+            ctx.ob("R11.13", "%s: %s" % (inst["function"], inst["local"]), (inst["call"], inst["local"]) not in badkeys, site=inst["call"], detail=inst,
+                   key="R11.13:%s:%s" % (inst["function"], inst["local"]),
+                   what="`%s` is handed to the checker as an output without having a value, the call's result is dropped, and it is read at %s: when the checker rejects that text the value is indeterminate (e.g. a time tag printed with its exact fraction `(...+0x1p-1s)` followed by `1 ... 4`)" % (inst["local"], inst["read_after_call"][:2]))
+    ctx.require(n13 >= 3, "R11.13: only %d local outputs of the checker found" % n13)
+
     chk = u.function("rtosc_skip_next_printed_arg")
     scn = u.function("rtosc_scan_arg_val")
     swc, sws = R.top_switch(u, chk), R.top_switch(u, scn)
